@@ -53,7 +53,7 @@ func C13() *runner.Property {
 			var cs []runner.Case
 			for i := 0; i < n; i++ {
 				p := c13Params{Seed: r.U64(), Native: i%3 != 2, NDBI: 1 + r.Intn(4), Entries: rng.Pick(r, 2500, 3000, 3003, 4001, 5500),
-					RetDays: rng.Pick(r, float32(0.1), 0.5, 1, 1.03, 7, 370), ReleaseUS: rng.Pick(r, 0, 100, 1000, 2000), Writer: i%4 != 3}
+					RetDays: rng.Pick(r, float32(0.1), 0.5, 1, 1.03, 7, 370, 36500), ReleaseUS: rng.Pick(r, 0, 100, 1000, 2000), Writer: i%4 != 3}
 				if tier == "thorough" && i%25 == 0 {
 					p.Entries = rng.Pick(r, 12000, 40000)
 					p.NDBI = 1 + r.Intn(2)
@@ -95,10 +95,19 @@ func runC13(c runner.Case, env *runner.Env) (res runner.Result) {
 	// the repository computes the retention in float32: allow its rounding (2^-22 relative) plus 1 s
 	tol := time.Second + R/(1<<22)
 	start := time.Now()
+	// A retention that reaches back before 1970 ("keep for 100 years") leaves nothing expired: the oldest possible
+	// markers (1970) are then young and must survive like every other one.
+	preEpoch := start.Add(-R).UnixNano() < 0
 	expiredTS := func() uint64 {
+		if preEpoch {
+			return uint64(1 + r.Intn(1e9))
+		}
 		return uint64(start.Add(-R - tol - time.Duration(1+r.Intn(3600))*time.Second).UnixNano())
 	}
 	youngTS := func() uint64 {
+		if preEpoch {
+			return uint64(start.Add(-time.Duration(r.Intn(1e6)) * time.Second).UnixNano())
+		}
 		return uint64(start.Add(-R + tol + time.Duration(30+r.Intn(3600))*time.Second).UnixNano())
 	}
 	// DBIs: in native mode application DBIs are swept; otherwise only _sync* ones
@@ -122,6 +131,9 @@ func runC13(c runner.Case, env *runner.Env) (res runner.Result) {
 	// ladder: markers that are a few milliseconds to 2 s YOUNGER than the retention when the setup starts. The pass
 	// fixes its cutoff when it begins; the ones that cross the limit while the pass is under way must survive it.
 	ladderTS := func() uint64 {
+		if preEpoch {
+			return youngTS()
+		}
 		return uint64(start.Add(-Rrepo + time.Duration(r.Intn(2000000))*time.Microsecond).UnixNano())
 	}
 	nLadder := 0
@@ -308,9 +320,15 @@ func runC13(c runner.Case, env *runner.Env) (res runner.Result) {
 	if firstSliceEnd.IsZero() {
 		firstSliceEnd = t1
 	}
-	cutLo := uint64(t0.Add(-Rrepo).UnixNano())            // certainly expired below this
-	cutHi := uint64(firstSliceEnd.Add(-Rrepo).UnixNano()) // certainly retained from this on
-	crossLo, crossHi := cutHi, uint64(t1.Add(-Rrepo).UnixNano())
+	clamp := func(t time.Time) uint64 {
+		if n := t.UnixNano(); n > 0 {
+			return uint64(n)
+		}
+		return 0 // timestamps are unsigned: nothing is older than 1970
+	}
+	cutLo := clamp(t0.Add(-Rrepo))            // certainly expired below this
+	cutHi := clamp(firstSliceEnd.Add(-Rrepo)) // certainly retained from this on
+	crossLo, crossHi := cutHi, clamp(t1.Add(-Rrepo))
 	wit := func(extra string) map[string]any {
 		return map[string]any{"params": p, "detail": extra, "slices": st.NTxn, "retention": R.String(), "writer_log_len": len(log)}
 	}
@@ -397,6 +415,9 @@ func runC13(c runner.Case, env *runner.Env) (res runner.Result) {
 	}
 	sort.Strings(names)
 	res.NonTrivial = st.NTxn >= 2*p.NDBI && nExpired > 0 && nProtected > 0
+	if preEpoch {
+		res.Count("passes_with_retention_reaching_before_1970", 1)
+	}
 	res.Sample = map[string]any{"case": c.ID, "params": p, "slices": st.NTxn, "cleaned": st.NCleaned, "writer_commits": commitsBetween, "expired_placed": nExpired, "pass_ms": t1.Sub(t0).Milliseconds()}
 	return
 }
